@@ -71,7 +71,7 @@ func (a *AS) Extender(maxExp uint8, signerNotAfter time.Time) *beaconing.Default
 // Seg is a registered segment with simulator-side ground truth.
 type Seg struct {
 	PS     *seg.PathSegment
-	ASes   []*AS   // in construction direction
+	ASes   []*AS    // in construction direction
 	In, Eg []uint16 // cons ingress/egress per entry
 	Core   bool
 	// Betas[i] is the accumulator value the i-th AS used when it created its hop field
